@@ -12,6 +12,18 @@ CHECKS = {
         note="Trusted: libxml2 + shipped ISO 29500-4 schemas (structure-only transformation in vlib/xsdkit.py), vlib/ctxgen.py only proposes contexts (each validated before use). Public add_x methods with required arguments and children admitted only through xsd:any are not driven (counted in evidence).",
         design="§3 C10",
     ),
+    "C11": dict(
+        technique="runtime monitoring: exhaustive execution of the real attribute setters/getters over a boundary-value grid; libxml2 validation of every written lexical form against the attribute's declared XSD simple type; schema-valid lexical forms and all attribute values harvested from the corpus decks read through the real getters",
+        text="All 159 (registered tag, declared attribute) pairs recovered from the real classes x ~300 Python values (every range bound used by any simple type +-1, rounding-threshold neighbours via nextafter, inf/nan/-0.0, bool, str, None, Decimal, Fraction, an Integral look-alike; thorough adds 2000 seeded random numbers each): accepted values must be written schema-valid and read back within the type's quantum, rejected ones must raise TypeError/ValueError and leave the element untouched; every lexical alternative libxml2 accepts for the type (enumeration tokens, percent/universal-measure/boolean forms, signed/padded integers) and every value met in the 67 corpus decks must be readable.",
+        note="Trusted: libxml2 + shipped schemas for lexical validity; XsdModel for looking up the attribute's declared type; the quantum table in props/c11.py. Reading is only demanded for forms valid for the XSD type the simple-type class is named after (a class narrower than the declared type, e.g. guide names on a:pt/@x, is counted, not judged).",
+        design="§3 C11",
+    ),
+    "C20": dict(
+        technique="runtime monitoring: exhaustive enumeration of enum members, preset-shape table and add/save/re-open/read-back executions against the schema enumerations and presetShapeDefinitions.xml shipped in the repository",
+        text="Every member and alias of the 16 XML-mapped enumerations (558 member/token pairs): distinct tokens, to_xml/from_xml round trip, token valid for the XSD type of the attribute the enumeration is declared on; all 182 auto-shape types against the standard's preset definitions (prst exists; adjustment names, order, defaults) and each added to a real slide, saved, re-opened and read back; all 73 chart types through add_chart/re-open/chart_type (44 raise the documented NotImplementedError). Exhaustive.",
+        note="Trusted: shipped XSDs and presetShapeDefinitions.xml (which itself lacks <upArrow> and defines <upDownArrow> twice: recorded as a known finding), libxml2, the attribute-declaration index shared with C11.",
+        design="§3 C20",
+    ),
     "C19": dict(
         technique="runtime monitoring: bounded-exhaustive differential oracle (OPC/RFC 3986 reference model + urljoin) over PackURI executions",
         text="Every part name over a 6x7 segment alphabet to directory depth 2 (quick) / 3 (thorough) and all ordered pairs (9e4 / 3.4e6 executions of the real relative_ref/from_rel_ref), every accessor, dotted and root-absolute references, compared with an independent reference model and urljoin. Exhaustive within the stated alphabet; says nothing about names outside it.",
